@@ -96,3 +96,43 @@ func (w *vDirRW) Header() http.Header {
 }
 func (w *vDirRW) Write(b []byte) (int, error) { return len(b), nil }
 func (w *vDirRW) WriteHeader(int)             {}
+
+// file upstream behind a rewrite rule: the request URI is re-parsed for the file handler; an
+// unparseable one (e.g. the empty string a prefix-stripping rule leaves for "/static") is
+// answered 500 and the file handler never sees a request without a URL
+// verif: unwind=4 strlen=8 also=C19
+func vh_C17_file_request_uri() {
+	uris := []string{"/app.js", "", "?v=1", "/dir/file.css?x=1", "relative"}
+	uri := uris[ndChoice("request-uri", len(uris))]
+	var seen *http.Request
+	calls := 0
+	h := requestURIToURL(http.HandlerFunc(func(_ http.ResponseWriter, r *http.Request) { calls++; seen = r }))
+	req := &http.Request{Method: "GET", RequestURI: uri, URL: &url.URL{Path: "/static"}, Header: http.Header{}}
+	rw := &vStatusRW{}
+	h.ServeHTTP(rw, req)
+	if calls > 0 {
+		verifReach("served")
+		verifAssert("C17.file.handler-sees-the-parsed-request-uri", calls == 1 && seen.URL != nil && seen.URL.RequestURI() == uri)
+	} else {
+		verifReach("refused")
+		verifAssert("C19.file.unparseable-request-uri-is-a-500", rw.status == 500)
+	}
+}
+
+type vStatusRW struct {
+	hdr    http.Header
+	status int
+}
+
+func (w *vStatusRW) Header() http.Header {
+	if w.hdr == nil {
+		w.hdr = http.Header{}
+	}
+	return w.hdr
+}
+func (w *vStatusRW) Write(b []byte) (int, error) { return len(b), nil }
+func (w *vStatusRW) WriteHeader(c int) {
+	if w.status == 0 {
+		w.status = c
+	}
+}
